@@ -26,7 +26,7 @@ STRINGS = ['T1', ' new ', 'x', '\n', 'b b']
 NEW_NAMES = ['zeta', 'RR', 'bar', 'x']
 NEW_ENV_NAMES = ['box', 'e', 'frame']
 NEW_MATH_NAMES = ['gather', 'equation', 'align*']
-ARG_STRINGS = ['{zz}', '[oo]', '{}', '{a}']
+ARG_STRINGS = ['{zz}', '[oo]', '{}', '{a}', '{{a}}']
 
 
 def frag_model(i):
